@@ -77,6 +77,12 @@ def delete_removes_found(prog, f, tree, removals):
         if value_switch:
             idx = d         # `match self.find_index(key) { EMPTY_REF => .., index => .. }`
         else:
+            if d.kind == 'bin' and d.args[0] in ('Lt', 'Gt'):
+                # index < EMPTY_REF (= u32::MAX) is index != EMPTY_REF
+                xx, yy = strip(d.args[1]), strip(d.args[2])
+                small, big = (xx, yy) if d.args[0] == 'Lt' else (yy, xx)
+                if prog.is_empty_ref(big):
+                    d = type('D', (), {'kind': 'bin', 'args': ('Ne', small, big)})()
             if not (d.kind == 'bin' and d.args[0] in ('Eq', 'Ne')):
                 continue
             x, y = strip(d.args[1]), strip(d.args[2])
